@@ -2,6 +2,8 @@
 import collections
 import itertools
 import json
+import threading
+import time
 from . import common as c
 
 ERRS = ["err51", "err52", "err53", "err1", "err80"]
@@ -58,7 +60,28 @@ def gen_seq(rng, maxlen, allow_hang=False):
     known = {0: [1], 1: [2], 2: []}     # passwords this user ever had / used
     ops = []
     n = rng.randint(4, maxlen)
-    style = rng.choice(["mixed", "mixed", "outage", "tamper", "churn"])
+    style = rng.choice(["mixed", "mixed", "outage", "outage", "tamper", "churn"])
+    if style in ("outage", "tamper"):
+        # a cached hash to talk about, then (outage) a directory that does not answer
+        u = rng.randint(0, 1)
+        ops.append("login %d %d l" % (u, dirpw[u]))
+        if rng.random() < 0.7:
+            ops.append("sync")
+        if style == "outage":
+            if rng.random() < 0.4:
+                pw = rng.randint(3, 5)
+                dirpw[u] = pw
+                known[u].append(pw)
+                ops.append("chpw %d %d" % (u, pw))
+                if rng.random() < 0.6:
+                    ops.append("login %d %d l" % (u, rng.choice(known[u])))
+                    if rng.random() < 0.6:
+                        ops.append("sync")
+            ops.append("srv 0 %s" % rng.choice(["down", "down", rng.choice(ERRS)]))
+            ops.append("srv 1 %s" % rng.choice(["down", "down", rng.choice(ERRS)]))
+            if rng.random() < 0.5:
+                ops.append("prim %s" % rng.choice(["slow", "down"]))
+    n = max(n - len(ops), 2)
     for _ in range(n):
         x = rng.random()
         w_login = 0.45
@@ -80,6 +103,8 @@ def gen_seq(rng, maxlen, allow_hang=False):
             ops.append("login %d %d %s" % (u, pw, variant))
         elif x < w_srv:
             st = rng.choice(["up", "up", "down", "down", "down", rng.choice(ERRS), rng.choice(ERRS)])
+            if style == "outage" and rng.random() < 0.5:
+                st = rng.choice(["down", rng.choice(ERRS)])
             if allow_hang and rng.random() < 0.03:
                 st = "hang"
             ops.append("srv %d %s" % (rng.randint(0, 1), st))
@@ -225,13 +250,34 @@ def run(ctx):
     runs = [("lib/pwauth/ldap", "passwordAuthenticate + reference store", ops, model),
             ("cmd/keymasterd", "loginHandler + LDAP authenticator + RuntimeState storage", ops[:n_full], model[:n_full])]
 
+    prim_up, cur = [], True
+    for o in ops:
+        if o.startswith("seq "):
+            cur = True
+        elif o.startswith("prim "):
+            cur = o.split()[1] == "up"
+        prim_up.append(cur)
     hist = collections.Counter()
     reported = set()
     evaluations = 0
     nontrivial = set()
     samples = []
+    # the two harness runs are independent processes (own network namespace each): run them side by side
+    results = {}
+
+    def runner(pkg, pops, tag):
+        try:
+            results[pkg] = c.run_harness(ctx, pkg, "C07", pops, timeout=3000, tag=tag)
+        except Exception as e:  # noqa
+            results[pkg] = ([], "exception: %r" % (e,), 99)
+    threads = [threading.Thread(target=runner, args=(pkg, pops, "h%d" % k)) for k, (pkg, _, pops, _) in enumerate(runs)]
+    for t in threads:
+        t.start()
+        time.sleep(1.0)   # both runs (re)write the same overlay.json before go reads it
+    for t in threads:
+        t.join()
     for pkg, what, pops, pmodel in runs:
-        impl, log, rc = c.run_harness(ctx, pkg, "C07", pops, timeout=3000)
+        impl, log, rc = results[pkg]
         if rc != 0 or len(impl) != len(pops):
             ctx.broken.append("harness TestVerifC07 in %s did not complete (exit %d, %d/%d lines)" % (pkg, rc, len(impl), len(pops)))
             continue
@@ -253,6 +299,15 @@ def run(ctx):
                         nontrivial.add((short, " ".join(pops[a + 1:i + 1])))
                     if "e" in f[1]:
                         hist["%s:server-error-fell-through" % short] += 1
+                    u = int(o[1])
+                    if u < 2 and i > a and len(impl[i - 1].split()) == 6:
+                        before, after = impl[i - 1].split()[2 + 2 * u], f[2 + 2 * u]
+                        if path == "verdict" and f[0] == "R" and before != "-" and after == "-":
+                            hist["%s:evicted" % short] += 1
+                        if path == "verdict" and f[0] == "A" and before != after:
+                            hist["%s:refreshed-or-replaced" % short] += 1
+                    if path == "offline" and f[0] == "A":
+                        hist["%s:offline-accept-from-%s" % (short, "primary" if prim_up[i] else "cache")] += 1
                 elif o[0] == "tamper":
                     hist["%s:tamper:%s" % (short, o[3])] += 1
                 elif o[0] in ("sync", "prim", "adv", "chpw", "srv"):
